@@ -51,10 +51,13 @@ _sched_note = (' Concurrent part (TIE-S sched): deterministic schedule explorati
                'see py/props.d/95-conc.py for the rule and the trusted base of that tie.')
 
 PROPS['C13']['ties'].append(sched_tie('C13', 'c13', 60, 3000))
-PROPS['C13']['theorems'] += ['C13_conc_at_most_one_log', 'C13_conc_at_most_one_log_from', 'C13_conc_refuted']
-PROPS['C13']['explanation'] += (' CONCURRENT: the outcome statement is REFUTED (C13_conc_refuted, vm_compute witness on Ledger/Conc.v, reproduced on the real stack = known finding [c13-business-error]): a request '
-                               'that missed the key in its lookup and then waits for the winner reads the state the winner left and returns insufficient funds / already reverted. PROVED for ALL schedules and any number of '
-                               'requests (C13_conc_at_most_one_log, induction over the schedule, unique-index wait rule): at most one committed log per idempotency key.' + _sched_note)
+PROPS['C13']['theorems'] += ['C13_conc_at_most_one_log', 'C13_conc_at_most_one_log_from', 'C13_conc_error_goes_to_lookup', 'C13_conc_lookup_returns_original']
+PROPS['C13']['explanation'] += (' CONCURRENT: PROVED for ALL schedules and any number of requests (C13_conc_at_most_one_log, induction over the schedule on Ledger/Conc.v, unique-index wait rule): at most one '
+                               'committed log per idempotency key. Outcomes: on the code as found the statement was refuted and reproduced on the real stack (known finding KF-C13-loser-business-error, '
+                               '[c13-business-error]: the loser of the race answered insufficient funds / already reverted); REPAIRED (fixes/01-ik-race-business-error.diff: forgeLog/forgeLogRetry look the key up once '
+                               'more before returning an error of a keyed request). The model follows the repaired code; C13_conc_error_goes_to_lookup (a keyed request never returns a business error straight from its '
+                               'rolled-back transaction) and C13_conc_lookup_returns_original (the lookup answers with the committed log of the key as a hit) hold in every state, hence under every schedule; the monitor '
+                               '[c13-business-error] stays armed. A log committed after that final lookup can still be missed (inherent to a lookup; the caller then holds a plain error and a retry returns the hit).' + _sched_note)
 PROPS['C13']['trusted'] = PROPS['C13']['trusted'] + CONC_TRUST
 
 PROPS['C14']['ties'].append(sched_tie('C14', 'c14', 80, 3000))
